@@ -11,8 +11,8 @@ variable {α G : Type} [AddCommGroup G] {o : GroupOps α}
 
 /-- the parity of the affine y-coordinate is a function of the (non-zero) group element: two
     representations of one element have the same parity.  True of affine points of an elliptic curve
-    over a field of odd characteristic with canonical coordinates; it is not among the fields of
-    `Btc.Lawful`, so it is a named hypothesis here. -/
+    over a field of odd characteristic with canonical coordinates; it is the field `Lawful.y_congr`
+    (the lemmas below take it as an argument, the property theorems pass `L.y_congr`). -/
 def YCongr (L : Lawful o G) : Prop :=
   ∀ P Q : α, L.abs P = L.abs Q → L.abs P ≠ 0 → (o.y P % 2 = 0 ↔ o.y Q % 2 = 0)
 
